@@ -112,7 +112,21 @@ def prepare_build(pid, cfg, repo):
     return bdir, modfile, overlay
 
 
+def disk_guard():
+    """Builds against many scratch trees fill the Go build cache (every tree has its own
+    cache keys). When the disk is nearly full the cache is dropped: the next build is
+    slower, but nothing a check needs lives there."""
+    try:
+        free = shutil.disk_usage(os.path.expanduser("~")).free
+    except OSError:
+        return
+    if free < 15 * (1 << 30):
+        log("disk nearly full (%.1f GiB free): dropping the Go build cache" % (free / (1 << 30)))
+        subprocess.run(["go", "clean", "-cache"], env=go_env(), stdout=subprocess.DEVNULL, stderr=subprocess.DEVNULL)
+
+
 def build(pid, cfg, repo, race=False, fuzz=False):
+    disk_guard()
     bdir, modfile, overlay = prepare_build(pid, cfg, repo)
     out = os.path.join(bdir, "bin", pid + (".race" if race else "") + ".test")
     cmd = ["go", "test", "-c", "-vet=off", "-tags", "verif", "-overlay", overlay,
